@@ -34,6 +34,7 @@ type HarnessCfg struct {
 	Quick      *TierSpec `json:"quick,omitempty"`
 	Thorough   *TierSpec `json:"thorough,omitempty"`
 	NoReplay   bool      `json:"no_replay,omitempty"`
+	Race       bool      `json:"race,omitempty"`
 }
 
 type PropertyCfg struct {
@@ -315,7 +316,7 @@ func runCheck(prop, tier string, only string) int {
 			fresh = append(fresh, a)
 		}
 		if len(fresh) > 0 {
-			rf := &ReplayFile{Property: prop, Harness: h.Pkg + "." + h.Func, Pkg: h.Pkg, Func: h.Func, Params: ts.Params}
+			rf := &ReplayFile{Property: prop, Harness: h.Pkg + "." + h.Func, Pkg: h.Pkg, Func: h.Func, Params: ts.Params, Race: h.Race}
 			for _, a := range fresh {
 				rf.Vectors = append(rf.Vectors, a.First.Vector)
 				rf.Expect = append(rf.Expect, a.First.Kind+" "+a.First.Label)
@@ -340,7 +341,7 @@ func runCheck(prop, tier string, only string) int {
 				desc := fmt.Sprintf("%s %q at %s (%d path(s)); inputs %s", v.Kind, v.Label, relPos(v.Pos), a.Count, vecString(v.Vector))
 				if h.NoReplay || reproduced(res[i]) {
 					v.Replayed = res[i]
-					one := &ReplayFile{Property: prop, Harness: rf.Harness, Pkg: h.Pkg, Func: h.Func, Params: ts.Params,
+					one := &ReplayFile{Property: prop, Harness: rf.Harness, Pkg: h.Pkg, Func: h.Func, Params: ts.Params, Race: h.Race,
 						Vectors: [][]NdVal{v.Vector}, Expect: []string{v.Kind + " " + v.Label},
 						Note: "engine: " + desc + "; native outcome: " + res[i] + "; decisions " + fmt.Sprint(v.Prefix)}
 					path := writeReplay(prop, h.Func, one)
@@ -358,7 +359,7 @@ func runCheck(prop, tier string, only string) int {
 		}
 		// translator validation: witness inputs of clean paths must run clean natively
 		if len(ex.samples) > 0 && !h.NoReplay && os.Getenv("VERIF_NO_SAMPLE_REPLAY") == "" {
-			rf := &ReplayFile{Harness: h.Pkg + "." + h.Func, Pkg: h.Pkg, Func: h.Func, Params: ts.Params}
+			rf := &ReplayFile{Harness: h.Pkg + "." + h.Func, Pkg: h.Pkg, Func: h.Func, Params: ts.Params, Race: h.Race}
 			n := len(ex.samples)
 			if tier == "quick" && n > 3 {
 				n = 3
